@@ -56,10 +56,7 @@ def run(v, tier, rng):
         i = idx[k]
         c = cs[i]
         w = {"source": cases[2 * i]["srcs"][0], "code": code, "why": why.get(code), "object_hex": res["o%d" % i]["calls"][0]["out"]}
-        if code == 4 and c["longfile"]:
-            v.finding("C09-file-name-truncated", w)
-        else:
-            v.violation(why.get(code, "?"), w)
+        v.violation(why.get(code, "?"), w)
     v.cov.update({"evaluations": len(cs), "distinct_nontrivial": len(set(cases[2 * i]["srcs"][0] for i in idx if cs[i]["globals"])),
                   "rule": "32-bit WCOFF programs with random label sets, GLOBAL subsets/orders/placements (one or several statements, before/after definitions), names 1..40 bytes, FILE names, plus all ordered subsets of a 3-label program; each assembled with and without FORMAT; non-trivial = distinct sources declaring at least one GLOBAL",
                   "samples": [cases[0]["srcs"][0]], "failures_by_code": {str(k): sum(1 for c in codes if c == k) for k in (1, 2, 3, 4)},
